@@ -555,6 +555,128 @@ pub fn consistent_cut(r: &mut Rng) -> Option<(Vec<u8>, &'static str, usize)> {
     v.extend_from_slice(&body[..cut]);
     Some((v, m.variant_name(), cut))
 }
+/// Number of rules in `reject_catalogue`.
+pub const REJECT_RULES: usize = 12;
+
+/// A handshake message whose framing (type, u24 length) is complete and self-consistent and whose body breaks one
+/// structural rule of the property's must-reject list (C04 appendix A.2): the parser must answer "no value" for it, and
+/// — what C03 / C16 need — a record or buffer that carries it after valid messages still yields those messages.
+/// Returns (message bytes, rule name).
+pub fn reject_catalogue(r: &mut Rng, rule: usize) -> (Vec<u8>, &'static str) {
+    let mut w = W::new();
+    let (ty, name): (u8, &'static str) = match rule % REJECT_RULES {
+        k @ (0 | 1) => {
+            // hello with session-id length 33..255, every supported legacy version, enough bytes after it
+            let server = k == 1;
+            w.u16(*r.pick(&[0x0300u16, 0x0301, 0x0302, 0x0303, 0x0303]));
+            w.bytes(&r.bytes(32));
+            let n = if r.chance(1, 4) { *r.pick(&[33u8, 34, 64, 255]) } else { r.usize(33, 255) as u8 };
+            w.u8(n);
+            let after = if r.bool() { n as usize + r.usize(0, 60) } else { r.usize(0, n as usize + 8) };
+            w.bytes(&r.bytes(after));
+            if server { (2, "sid-len-over-32-server") } else { (1, "sid-len-over-32-client") }
+        }
+        2 => {
+            // odd cipher-suite list
+            w.u16(0x0303);
+            w.bytes(&r.bytes(32));
+            let sl = *r.pick(&[0usize, 32, 7]);
+            w.vec8("session_id", &r.bytes(sl));
+            let n = 2 * r.usize(0, 20) + 1;
+            w.vec16("cipher_suites", &r.bytes(n));
+            w.vec8("compression_methods", &[0]);
+            (1, "odd-cipher-list")
+        }
+        3 => {
+            // cipher-suite list longer than the body
+            w.u16(0x0303);
+            w.bytes(&r.bytes(32));
+            w.u8(0);
+            let have = 2 * r.usize(0, 10);
+            w.u16((have + 2 * r.usize(1, 3000)) as u16);
+            w.bytes(&r.bytes(have));
+            (1, "overlong-cipher-list")
+        }
+        4 => {
+            // compression list longer than the body
+            w.u16(0x0303);
+            w.bytes(&r.bytes(32));
+            w.u8(0);
+            w.vec16("cipher_suites", &[0x13, 0x01]);
+            let have = r.usize(0, 5);
+            w.u8((have + r.usize(1, 200)) as u8);
+            w.bytes(&r.bytes(have));
+            (1, "overlong-compression-list")
+        }
+        5 => {
+            let n = r.usize(0, 3);
+            w.bytes(&r.bytes(n));
+            (4, "new-session-ticket-under-4")
+        }
+        6 => {
+            // certificate list longer than the body
+            let have = r.usize(0, 40);
+            let claim = have + r.usize(1, 70000);
+            w.u8((claim >> 16) as u8);
+            w.u16(claim as u16);
+            w.bytes(&r.bytes(have));
+            (11, "certificate-list-over-body")
+        }
+        7 => {
+            // status blob longer than the body
+            w.u8(1);
+            let have = r.usize(0, 40);
+            let claim = have + r.usize(1, 70000);
+            w.u8((claim >> 16) as u8);
+            w.u16(claim as u16);
+            w.bytes(&r.bytes(have));
+            (22, "status-blob-over-body")
+        }
+        8 => {
+            // ServerHello with an unsupported legacy version
+            let bad = [0x0304u16, 0x0200, 0x0002, 0x0305, 0x0403, 0xfefd, 0xfeff, 0x7f13, 0x7f1c, 0x0000, 0xffff];
+            w.u16(if r.bool() { *r.pick(&bad) } else { let mut v = r.u16(); while [0x0300, 0x0301, 0x0302, 0x0303, 0x7f12].contains(&v) { v = r.u16(); } v });
+            w.bytes(&r.bytes(32));
+            let sl = *r.pick(&[0usize, 32]);
+            w.vec8("session_id", &r.bytes(sl));
+            w.u16(0x1301);
+            w.u8(0);
+            if r.bool() {
+                w.vec16("extensions", &[]);
+            }
+            (2, "server-hello-unsupported-version")
+        }
+        9 => {
+            let known = [0u8, 1, 2, 4, 5, 6, 11, 12, 13, 14, 15, 16, 20, 21, 22, 24, 67];
+            let mut t = r.u8();
+            while known.contains(&t) {
+                t = r.u8();
+            }
+            w.bytes(&opaque(r, 30));
+            (t, "unknown-handshake-type")
+        }
+        10 => {
+            // CertificateRequest that fits neither layout: a types list that overruns, or a DN list longer than the body
+            let n = r.usize(1, 6);
+            if r.bool() {
+                w.u8((n + r.usize(1, 100)) as u8);
+                w.bytes(&r.bytes(n));
+            } else {
+                w.vec8("certificate_types", &r.bytes(n));
+                w.u16(r.usize(1, 4000) as u16);
+            }
+            (13, "certificate-request-neither-layout")
+        }
+        _ => {
+            // HelloVerify-less kinds with a fixed-size mandatory field cut off by the declared length: KeyUpdate of 0 bytes
+            (24, "key-update-empty")
+        }
+    };
+    let body = w.b;
+    let mut v = vec![ty, (body.len() >> 16) as u8, (body.len() >> 8) as u8, body.len() as u8];
+    v.extend_from_slice(&body);
+    (v, name)
+}
 pub fn hs(r: &mut Rng, sz: Sz) -> AHs {
     let v = r.below(HS_VARIANTS as u64) as usize;
     hs_variant(r, sz, v)
